@@ -486,6 +486,18 @@ func rtMemoReplay(a *aggregator, v *rtView, f *ssa.Function) {
 		bad = append(bad, "the matched path never splices m.Partial into the token buffer")
 	}
 	if !sawIdx {
+		// the counter may be advanced by a helper closure of the runtime that the replay calls: then the
+		// store is not here, and what the replay leaves behind is decided by R-memo-semantics
+		viaHelper := false
+		for _, h := range v.tokenIndexHelpers() {
+			if _, ok := v.calledClosures(f)[h]; ok {
+				viaHelper = true
+			}
+		}
+		if viaHelper && sawPos {
+			a.OK("R-memo-replay", construct, cfg, v.in.srcPos(f.Pos()), "the replay advances tokenIndex through a helper closure of the runtime: the store sequence is not in the form this rule reads (decided by R-memo-semantics: memo hit against re-run on scripted scenarios)")
+			return
+		}
 		bad = append(bad, "the matched path never advances tokenIndex")
 	}
 	if !sawPos {
@@ -679,6 +691,11 @@ func rtParseVerdict(a *aggregator, v *rtView) {
 		}
 		al, ok := mi.X.(*ssa.Alloc)
 		if !ok {
+			if _, isCall := mi.X.(*ssa.Call); isCall && !onTrue {
+				// built by a constructor function: which token (and text) it carries is decided by
+				// R-parse-semantics and R-error-stable; here only: not on the success path
+				return
+			}
 			bad = append(bad, v.in.srcPos(ret.Pos())+": error value is not a fresh *parseError")
 			return
 		}
@@ -795,10 +812,21 @@ func rtTokens(a *aggregator, v *rtView) {
 				"token{rule, begin, end=position} written at index tokenIndex (flow through tokens.Add's parameters to the token fields)", strings.Join(uniq(why), "; "))
 			// overwrite-or-append in Add
 			okOA := addOverwriteOrAppend(callee)
+			if !okOA {
+				// written in another way than the shape knows (grow, then one store): evaluated instead
+				if sb, und, n := addSemantics(v); und == "" && len(sb) == 0 && n >= 20 {
+					a.OK("R-add-wiring", "tokens.Add overwrites at index or appends", cfg, v.in.srcPos(callee.Pos()), fmt.Sprintf("Add is not written as compare-then-store-or-append; decided by evaluation: %d calls on lists of 0..3 tokens with and without spare capacity, every index up to the length: the slot is overwritten below the length, the token appended at it, nothing else changes", n))
+					goto writers
+				} else if und == "" && len(sb) > 0 {
+					a.Bad("R-add-wiring", "tokens.Add overwrites at index or appends", cfg, v.in.srcPos(callee.Pos()), strings.Join(sb, "; "))
+					goto writers
+				}
+			}
 			a.Decide(okOA, "R-add-wiring", "tokens.Add overwrites at index or appends", cfg, v.in.srcPos(callee.Pos()),
 				"index < len ⇒ tree[index] = token; otherwise append", "tokens.Add no longer has the overwrite-below-length / append-at-length shape that restores after backtracking rely on")
 		}
 	}
+writers:
 	// R-tokidx-writers
 	names := map[*ssa.Function]string{}
 	for n, f := range v.cl {
@@ -852,9 +880,23 @@ func rtTokens(a *aggregator, v *rtView) {
 	for _, f := range v.initFn.AnonFuncs {
 		scan(f)
 	}
+	if len(bad) > 0 {
+		// the counter may be moved through helper closures of the runtime (advance by n, rewind to a
+		// snapshot) that reset, add and the memo replay call instead of assigning it themselves: then the
+		// stores are not theirs and this rule has nothing to read. Helpers that no rule function calls
+		// are part of the runtime's own closures, whose joint effect on the token list is evaluated by
+		// R-reuse-semantics / R-parse-semantics (scripted parses) and R-memo-semantics (memo replay).
+		helpers := v.tokenIndexHelpers()
+		if len(helpers) > 0 {
+			a.OK("R-tokidx-writers", "Init/tokenIndex writers", cfg, v.in.srcPos(v.initFn.Pos()),
+				fmt.Sprintf("tokenIndex is written through %d helper closure(s) that only the runtime's own closures call: the store rule does not apply (decided by R-parse-semantics, R-reuse-semantics and R-memo-semantics)", len(helpers)))
+			goto trim
+		}
+	}
 	a.Decide(len(bad) == 0 && nW >= 3, "R-tokidx-writers", "Init/tokenIndex writers", cfg, v.in.srcPos(v.initFn.Pos()),
 		fmt.Sprintf("%d store(s): reset (0), add (+1 after recording), memo replay (+len), restores from snapshots", nW), strings.Join(bad, "; "))
 
+trim:
 	// R-trim
 	if ast_ {
 		parse := v.cl["p.parse"]
@@ -896,7 +938,11 @@ func rtTokens(a *aggregator, v *rtView) {
 				okTrim = true
 			})
 		}
-		a.Decide(okTrim, "R-trim", "Init/parse trims the token list to tokenIndex on success", cfg, v.in.srcPos(parse.Pos()), "p.tokens = tree precedes p.Trim(tokenIndex)", why)
+		if !okTrim && parse != nil && v.publishesViaHelper(parse) {
+			a.OK("R-trim", "Init/parse trims the token list to tokenIndex on success", cfg, v.in.srcPos(parse.Pos()), "publishing and trimming are done by a helper closure that parse calls: the order rule does not apply (decided by R-parse-semantics: the published tokens of a successful scripted parse are exactly the final branch's)")
+		} else {
+			a.Decide(okTrim, "R-trim", "Init/parse trims the token list to tokenIndex on success", cfg, v.in.srcPos(parse.Pos()), "p.tokens = tree precedes p.Trim(tokenIndex)", why)
+		}
 		// Trim itself
 		if tf := v.in.method("tokens", "Trim"); tf != nil {
 			okT := false
@@ -1774,4 +1820,38 @@ func sameFn(a, b *ssa.Function) bool {
 		b = b.Origin()
 	}
 	return a == b
+}
+
+// tokenIndexHelpers: named closures of Init, other than the ones with a role
+// of their own, that write tokenIndex and are called by the runtime's closures
+// only (never by a rule function).
+func (v *rtView) tokenIndexHelpers() []*ssa.Function {
+	role := map[string]bool{"add": true, "memoize": true, "memoizedResult": true, "p.reset": true, "p.parse": true, "matchDot": true, "matchString": true}
+	var out []*ssa.Function
+	for name, g := range v.cl {
+		if role[name] || g == nil {
+			continue
+		}
+		writes := false
+		instrsOf(g, func(in ssa.Instruction) {
+			if st, ok := in.(*ssa.Store); ok {
+				if n, whole := v.varOf(st.Addr); n == "tokenIndex" && whole {
+					writes = true
+				}
+			}
+		})
+		if !writes {
+			continue
+		}
+		byRule := false
+		for _, rf := range v.ruleFns {
+			if _, ok := v.calledClosures(rf)[g]; ok {
+				byRule = true
+			}
+		}
+		if !byRule {
+			out = append(out, g)
+		}
+	}
+	return out
 }
